@@ -348,7 +348,13 @@ pub struct Model {
     pub sessions: BTreeMap<u8, Tx>,
     pub seq: u64,
     /// findings (by id) whose hazard fired; non-empty = tainted
+    /// alphabet switch: VACUUM may be issued while sessions are open (it aborts their transactions)
+    #[serde(default)]
+    pub vacuum_with_sessions: bool,
     pub taint: Vec<String>,
+    /// listed findings whose exact engine behaviour the model reproduced on this history (the history stays judged)
+    #[serde(default)]
+    pub quirks: Vec<String>,
     /// known-finding ids this run is allowed to use as hazards
     pub enabled_hazards: BTreeSet<String>,
     /// transactions with an in-place-update hazard pending (KF-update-in-place)
@@ -383,6 +389,8 @@ pub const KF_NULL_IN_UNIQUE: &str = "KF-null-in-unique-column";
 pub const KF_INDEX_DDL_IN_TXN: &str = "KF-create-index-in-transaction";
 pub const KF_REINSERT_INDEX: &str = "KF-reinsert-overwrites-index-entry";
 pub const KF_CHECKPOINT_OPEN_WRITER: &str = "KF-checkpoint-with-open-writer";
+pub const KF_VACUUM_FORGETS_OLDER_OPEN_TX: &str = "KF-vacuum-forgets-open-transaction-older-than-last-commit";
+pub const KF_VACUUM_ABORT_COMMIT_LEAK: &str = "KF-commit-of-vacuum-aborted-session-leaks-after-reopen";
 
 impl Model {
     pub fn new(enabled: &BTreeSet<String>) -> Model {
@@ -391,7 +399,9 @@ impl Model {
             tables: vec![],
             sessions: BTreeMap::new(),
             seq: 1,
+            vacuum_with_sessions: false,
             taint: vec![],
+            quirks: vec![],
             enabled_hazards: enabled.clone(),
             pending_update: BTreeSet::new(),
             pending_reinsert: BTreeSet::new(),
@@ -412,6 +422,18 @@ impl Model {
         if self.enabled_hazards.contains(id) {
             if !self.taint.iter().any(|t| t == id) {
                 self.taint.push(id.to_string());
+            }
+            true
+        } else {
+            false
+        }
+    }
+
+    /// A listed finding with crisp semantics: the model follows the engine and keeps judging.
+    fn quirk(&mut self, id: &str) -> bool {
+        if self.enabled_hazards.contains(id) {
+            if !self.quirks.iter().any(|t| t == id) {
+                self.quirks.push(id.to_string());
             }
             true
         } else {
@@ -858,7 +880,9 @@ impl Model {
                 if set {
                     for (_, v) in self.visible_rows(t, ti) {
                         if v[ci] == Val::Null {
-                            if !self.hazard(KF_SET_NOT_NULL_UNCHECKED) {
+                            // listed finding: the engine only flips the flag; existing NULLs stay and must still
+                            // be read back as NULL (exact quirk: the history stays judged)
+                            if !self.quirk(KF_SET_NOT_NULL_UNCHECKED) {
                                 return Err(ErrClass::NotNull);
                             }
                         }
@@ -921,6 +945,16 @@ impl Model {
             }
             Op::Commit(n) => {
                 let t = self.sessions.remove(n).unwrap();
+                if self.txs[t as usize].state == TxState::Aborted {
+                    // the transaction was aborted under the session (VACUUM aborts every open transaction):
+                    // COMMIT must fail and nothing of it may ever become visible. Listed finding: what the session
+                    // wrote AFTER the VACUUM reappears after a reopen when the session ends with this failing COMMIT
+                    let wrote = self.tables.iter().any(|tb| tb.created_by == t || tb.rows.iter().any(|r| r.xmax == Some(t) || r.versions.iter().any(|(x, _)| *x == t)));
+                    if wrote {
+                        self.hazard(KF_VACUUM_ABORT_COMMIT_LEAK);
+                    }
+                    return vec![Exp::Err(ErrClass::Internal)];
+                }
                 self.commit_tx(t);
                 vec![Exp::Unit]
             }
@@ -950,6 +984,13 @@ impl Model {
                 let open: Vec<(u8, Tx)> = self.sessions.iter().map(|(k, v)| (*k, *v)).collect();
                 for (_, t) in &open {
                     if self.txs[*t as usize].state == TxState::Active {
+                        // listed finding: an open transaction that is OLDER than the newest commit is forgotten by
+                        // VACUUM's clean-up instead of staying aborted; what its session writes afterwards is
+                        // visible to everyone at once and its ROLLBACK fails with "Transaction not found"
+                        let began = self.txs[*t as usize].begin_seq;
+                        if self.txs.iter().any(|x| matches!(x.state, TxState::Committed(c) if c > began)) {
+                            self.hazard(KF_VACUUM_FORGETS_OLDER_OPEN_TX);
+                        }
                         self.abort_tx(*t);
                     }
                 }
